@@ -207,12 +207,15 @@ def replay_session(task):
     events = [["init", [[k, v] for k, v in sorted(scripts0.items())], active0]]
     d = Double(scripts0, active0, events)
     rng = random.Random(seed)
-    c, s = M.connected_client(d, plan=lambda bts: C_split(bts, rng), version=True)
+    version = seed % 2 == 0          # every other session: a server without RENAMESCRIPT/CHECKSCRIPT (rename is emulated)
+    c, s = M.connected_client(d, plan=lambda bts: C_split(bts, rng), version=version)
     for op, a, b, refuse, enc, decor in script:
-        d.choice = {"refuse": bool(refuse), "enc": enc, "decor": decor}
-        events.append(["call", op, a, b])
+        if op == "checkscript" and not version:
+            continue
+        d.choice = {"refuse": bool(refuse), "enc": enc if version else "q", "decor": decor}
+        events.append(["call", "renamescript_emulated" if (op == "renamescript" and not version) else op, a, b])
         do_call(c, s, events, op, a, b)
-    return events, {}
+    return events, {"version_capability": version}
 
 
 def validate(traces):
@@ -247,7 +250,7 @@ def validate(traces):
 
 def tlc_rename(tier):
     names = '{"a", "b", "c"}' if tier == "thorough" else '{"a", "b"}'
-    bodies = '{"B1", "B2"}'
+    bodies = '{"B1", "B3"}'
     cfg = ("SPECIFICATION RSpec\nCONSTANTS\n Names = %s\n Bodies = %s\n FaultKinds = {\"NO\", \"BYE\", \"silence\", \"lost\"}\n"
            "INVARIANT InvNoLoss\nINVARIANT InvNoOverwrite\nINVARIANT InvSuccessPost\nINVARIANT InvFailsCleanly\n"
            "INVARIANT EmitRename\nCHECK_DEADLOCK FALSE\n" % (names, bodies))
@@ -271,18 +274,19 @@ def tlc_sessions(maxops, simulate, seed, ops):
 ALLOPS = ["listscripts", "getscript", "deletescript", "setactive", "putscript", "havespace", "renamescript", "checkscript"]
 C14_CLAUSES = ("RenameNoLoss", "RenameNoOverwrite", "RenameSuccessPost", "RenameFailsCleanly", "Raises", "ErrorExpected",
                "ContentMangled", "MalformedCommand")
+CLAUSES_FOR = {"C14": C14_CLAUSES, "C09": ("ResultMirrorsStatus", "ErrorExpected", "Raises"), "C15": None}
 MACHINERY_CLAUSES = ("ServerDoubleWrong",)
 
 
-def run(prop, tier, seed):
+def run(prop, tier, seed, write_evidence=True):
     t0 = time.time()
     devs = findings.open_devs("MSStore")
     bydev = findings.by_dev()
     machinery = []
     states = trans = 0
     traces, infos, scen = [], [], []
-    if prop == "C14":
-        out, res = tlc_rename(tier)
+    if prop in ("C14", "C09"):
+        out, res = tlc_rename(tier if prop == "C14" else "quick")
         if res["error"] or res["violated"]:
             machinery.append("TLC MSRename: %s %s" % (res["error"], res["violated"]))
         states += res["distinct"]
@@ -327,6 +331,8 @@ def run(prop, tier, seed):
         if clause in MACHINERY_CLAUSES:
             machinery.append("%s at event %d of trace %d: %s" % (clause, at, i, json.dumps(ev)[:300]))
             continue
+        if CLAUSES_FOR.get(prop) and clause not in CLAUSES_FOR[prop]:
+            continue
         rec = {"clause": clause, "at": at, "trace": ev, "scenario": list(scen[i])[:9], "info": infos[i]}
         hit = None
         for d in devs:
@@ -370,6 +376,7 @@ def run(prop, tier, seed):
            "known_finding_cases": {d: len(v) for d, v in known.items()}, "violating_cases": len(viols),
            "trusted_base": ["harness/ms_impl.py scripted socket", "harness/rfc5804.py strict command decoder",
                             "scripted server double (checked against MSStore!Srv by MSStoreTrace: clause ServerDoubleWrong)"]}
-    evidence.write(prop, tier, seed, t0, cov, len(viols),
-                   ["script bodies and names from small pools without protocol look-alikes in names (C17 covers those)"])
-    return rc
+    if write_evidence:
+        evidence.write(prop, tier, seed, t0, cov, len(viols),
+                       ["script bodies and names from small pools without protocol look-alikes in names (C17 covers those)"])
+    return rc if write_evidence else (rc, cov)
